@@ -25,7 +25,7 @@ CFG = {
             "operands (~8 200 runs); plus a precompile lattice (16 472 direct calls): addresses 1..9 x 5 rule sets, modexp headers = all 729 "
             "combinations of baseLen/expLen/modLen in {0,1,32,2^16,2^26,2^31,2^62,2^64-1,2^255} with/without data, 0..1 MiB real inputs, gas 0 / "
             "required-1 / required / plenty, with the heap allocation of the call measured (TotalAlloc delta) and bounded by 1 MiB + 256 B x gas charged. Non-trivial = at least 3 interpreter steps executed.",
-    "tie": {"core/vm.toWordSize, core/vm.memoryGasCost (mini-translator)": "translated (go/ssa -> Lean on every run; toWordSize_code_is_model, memoryGasCost_code_refines_model for requests <= 0x1fffffffe0 bytes) + corr",
+    "tie": {"core/vm.toWordSize, memoryGasCost, precompile RequiredGas (7 contracts), gasBalance/gasExtCodeSize/gasSLoad (mini-translator)": "translated (go/ssa -> Lean on every run; toWordSize_code_is_model, memoryGasCost_code_refines_model for requests <= 0x1fffffffe0 bytes, precompile_requiredGas_code_is_model, gasTableReads_code_is_model) + corr",
             "core/vm/jump_table.go (5 instruction sets), params gas tables and constants, precompile address sets, NewInterpreter/Rules selection":
                 "gen (values dumped from the compiled program; enumerations of gas/memory/execute functions the model must match exhaustively)",
             "instructions.go / gas_table.go / memory_table.go stack accesses (pop, peek, Back, dup, swap, data[len-k]) and memory accesses "
